@@ -16,6 +16,8 @@
                                               |->  f(a1..ak, zero(T_k+1), .., zero(T_n))
    R4  method alias / auto-property  v.name |-> v.Name()          v.add(x) |-> v.Add(x)
    R6  member access on maps / any    m.key |-> m["key"];  e.key (e any) |-> T["key"] with T, _ := e.(map[string]any) hoisted
+   R7  user-defined range enumerators   iterator-function and Next() styles, every loop-variable form; judged by executing
+   R8  inline closure calls             arguments evaluated once in order, body once, return = values of the call; judged by executing
    R5  big-number literals           written value v  |->  an expression whose value is exactly v:
          integers in int64 range big.NewInt(v), beyond it SetString(decimal, 10) on a new big.Int;
          rationals big.NewRat(a, b) when both fit, new(big.Rat).SetFrac(A, B) otherwise
@@ -136,13 +138,42 @@ Temps(p) == (CASE p.base = "map" -> 0 [] p.base = "any" -> p.steps [] OTHER -> p
 R6Lower(p) == [temps |-> Temps(p),
                placement |-> IF Temps(p) = 0 THEN "none" ELSE IF p.ctx = "for-cond" THEN "per-iteration" ELSE IF p.ctx \in HeadCtx THEN "before-or-init" ELSE "before-statement"]
 
+(* ---------- R7: user-defined range enumerators ---------- *)
+\* for k, v := range x   with x.XGo_Enum() returning
+\*   an iterator function  func(yield func([K[, V]]) bool)          |->  for k, v := range x.XGo_Enum() { body }
+\*   a value with Next() (elem, ok) or (key, elem, ok)            |->  for it := x.XGo_Enum(); ; { var ok bool; k, v, ok = it.Next(); if !ok { break }; body }
+\* The loop visits exactly the sequence the enumerator yields, binding the loop variables per iteration; break leaves the loop.
+EnumStyles == {"next2", "next3", "ptrnext2", "iter0", "iter1", "iter2"}
+Vals(st) == CASE st \in {"next2", "ptrnext2", "iter1"} -> 1 [] st \in {"next3", "iter2"} -> 2 [] OTHER -> 0
+\* blank-k is `for _ = range x`: an assignment to the blank identifier (only meaningful for the Next() styles, which lower to an assignment)
+VarForms(st) == {"none"} \cup (IF Vals(st) >= 1 THEN {"define-k", "assign-k"} ELSE {})
+                         \cup (IF st \in {"next2", "next3", "ptrnext2"} THEN {"blank-k"} ELSE {})
+                         \cup (IF Vals(st) = 2 THEN {"define-kv", "assign-kv", "blank-k-define-v"} ELSE {})
+R7Points == UNION {{[rule |-> "enum", style |-> st, vars |-> vf, brk |-> b] : vf \in VarForms(st), b \in BOOLEAN} : st \in EnumStyles}
+\* the enumerators of the fixture yield 3 elements; a body with break stops after the second
+R7Lower(p) == [iterations |-> IF p.brk THEN 2 ELSE 3, binds |-> CASE p.vars \in {"none", "blank-k"} -> 0 [] p.vars \in {"define-k", "assign-k", "blank-k-define-v"} -> 1 [] OTHER -> 2]
+
+(* ---------- R8: inline closure calls ---------- *)
+\* func(p1 T1, ..) (R1, ..) { body }(a1, ..)  inlined: every argument expression is evaluated exactly once, in source order,
+\* before the body; the body runs once; `return e..` delivers e.. as the values of the call and leaves the inlined body;
+\* the statements after the call see the results.  Observable behaviour must equal that of the real closure call.
+R8Points == {[rule |-> "inline", np |-> np, variadic |-> va, nvar |-> nv, nres |-> nr, body |-> b] :
+               np \in 0..2, va \in BOOLEAN, nv \in 0..2, nr \in 0..2, b \in {"plain", "early", "unused"}}
+            \ {p \in [rule : {"inline"}, np : 0..2, variadic : BOOLEAN, nvar : 0..2, nres : 0..2, body : {"plain", "early", "unused"}] :
+                  (~p.variadic /\ p.nvar > 0) \/ (p.variadic /\ p.np = 0) \/ (p.body = "unused" /\ (p.np = 0 \/ p.nres > 0))}
+\* body "plain" / "early" use every parameter; "unused" uses none (a closure need not use its parameters)
+\* number of argument expressions of the call
+NArgs(p) == IF p.variadic THEN p.np - 1 + p.nvar ELSE p.np
+R8Lower(p) == [argevals |-> NArgs(p), returns |-> IF p.body = "early" THEN 2 ELSE 1]
+
 (* ---------- the catalogue as a state space ---------- *)
 VARIABLE pt
-Points == R1Points \cup R2Points \cup R3Points \cup R4Points \cup R5Points \cup R6Points
+Points == R1Points \cup R2Points \cup R3Points \cup R4Points \cup R5Points \cup R6Points \cup R7Points \cup R8Points
 Init == pt \in Points
 Next == UNCHANGED pt
 Lowered == CASE pt.rule = "bti" -> R1Lower(pt) [] pt.rule = "boolcast" -> R2Lower(pt) [] pt.rule = "optional" -> R3Lower(pt)
-             [] pt.rule = "alias" -> R4Lower(pt) [] pt.rule = "member" -> R6Lower(pt) [] OTHER -> R5Lower(pt)
+             [] pt.rule = "alias" -> R4Lower(pt) [] pt.rule = "member" -> R6Lower(pt) [] pt.rule = "enum" -> R7Lower(pt)
+             [] pt.rule = "inline" -> R8Lower(pt) [] OTHER -> R5Lower(pt)
 BindOnce == pt.rule = "bti" =>
               /\ Cardinality({i \in 1..Len(Lowered.args) : Lowered.args[i].k = "recv"}) = 1
               /\ Lowered.args[1].k = "recv"
